@@ -296,13 +296,13 @@ def gen(ctx):
         c.add("m.invocation,%d,%d,n,n,0;r" % (r + 5, g))        # no longer registered
         out.append(("protocol", c.script(), True))
     # (d) 1-3 concurrent invocations, INTERRUPT before / between / after, ok / fallback plans (Spec-checked)
-    n = 250 if quick else 20000
+    n = 250 if quick else 100000
     for _ in range(n):
         out.append(("concurrent", scenario(rng, rng.choice(["always", "never", "random"]), rng.randint(1, 3),
                                            rng.choice([[], [], OKFAULT])), True))
     # (e) what the property does not promise (correspondence only, plus known findings): send() raising another class,
     # a failing fallback, an ERROR that cannot be built, late progress, transport loss while replies are owed
-    m = 120 if quick else 8000
+    m = 120 if quick else 30000
     for _ in range(m):
         out.append(("hostile", scenario(rng, rng.choice(["always", "never", "random"]), rng.randint(1, 3),
                                         rng.choice([BADFAULT, OKFAULT + BADFAULT]), late=rng.random() < 0.3), False))
